@@ -94,6 +94,14 @@ func RefValidate(cfg map[string]string) []RefViolation {
 			}
 		}
 	}
+	// ok2/href: leafref ../../sys/hostname
+	for p, v := range cfg {
+		if strings.HasPrefix(p, "/ok2[") && strings.HasSuffix(p, "/href") {
+			if hn, ok := cfg["/sys/hostname"]; !ok || hn != v {
+				add("leafref", p, "no sys/hostname with value "+v)
+			}
+		}
+	}
 	// mand / dk: mandatory child m of every existing entry
 	for e := range listEntries(cfg, "mand") {
 		if _, ok := cfg[e+"/m"]; !ok {
